@@ -235,6 +235,10 @@ fn mapped_fields(x: &s3s::dto::PutObjectInput) -> Vec<(&'static str, Option<Stri
 }
 
 pub fn judge(rt: &tokio::runtime::Runtime, r: &mut Report, case: &Case) {
+    judge_with_session_check(r, |rep| judge_inner(rt, rep, case));
+}
+
+fn judge_inner(rt: &tokio::runtime::Runtime, r: &mut Report, case: &Case) {
     let req = case.form.request(case.framing.clone());
     if req.build().is_none() {
         r.inconclusive("request not expressible with the http crate");
@@ -636,6 +640,10 @@ pub fn run(ctx: &RunCtx) -> i32 {
     let total = par_run(ctx.workers, n.div_ceil(per), |j, r| {
         let rt = new_runtime();
         let mut g = Rng::new(derive_seed(ctx.seed, "C10", j));
+        // every other job sends all its requests through one reused service instance per configuration
+        if j % 2 == 1 {
+            session_begin();
+        }
         for _ in 0..per {
             let (form, cclass, policy) = gen_form(&mut g, &secrets);
             let len = form.encode().len();
@@ -658,6 +666,7 @@ pub fn run(ctx: &RunCtx) -> i32 {
             let case = Case { form: form.clone(), framing: None, op: "mutation/secret-changed-at-provider".into(), content_class: cclass.into(), secrets: s2 };
             judge(&rt, r, &case);
         }
+        r.count("requests_served_by_a_reused_service_instance", session_end());
     });
     finish(ctx, &meta, &total)
 }
